@@ -315,6 +315,12 @@ def f_nest():
     yield D([[m0, T("T0", [Fsm(([inner], 1, "in"), (A4[2:3] + [call("M0")], 0, "in"))])]])
     # nested transaction in the Else of its parent's call
     yield D([[m0, T("T0", [If([call("M0")], [T("N0", [call("M0")] + A4)], has_else=True)])]])
+    # Switch with a Default branch: all four domains and a call in the Default, at module level and inside a body
+    yield D([[Sw(2, [(0, A4), (1, A4[:2])], default=A4)]])
+    yield D([[Sw(1, [(0, A4[2:3])], default=A4)] + A4[:1]])
+    yield D([[m0, T("T0", [Sw(2, [(0, A4[2:3]), (2, A4[:1])], default=A4 + [call("M0")])])]])
+    yield D([[m0, T("T0", [Sw(2, [(1, [call("M0")] + A4[2:3])], default=[call("M0")] + A4[2:3])])]])
+    yield D([[m0, M("N0", [Sw(1, [(0, A4[2:3])], default=A4[2:3] + [call("M0")])]), T("T0", [call("N0", en="in")])]])
 
 
 def f_val():
